@@ -347,7 +347,8 @@ pub fn gen_op<T: Sc>(rng: &mut Rng, r: &mut usize, c: &mut usize, bad_pct: usize
         22 => format!("filltri {} {} {}", sc(rng), sc(rng), sc(rng)),
         23 => format!("fillrow {} {}", idx(rng, *r, bad), sc(rng)),
         24 => format!("fillcol {} {}", idx(rng, *c, bad), sc(rng)),
-        25 => { *r = dim(rng); *c = dim(rng); format!("resize {} {}", *r, *c) }
+        25 => { match rng.below(4) { 0 => { *r = dim(rng); } 1 => { *c = dim(rng); } _ => { *r = dim(rng); *c = dim(rng); } } // half of the resizes keep one dimension (storage could be reused: S10-C03)
+                format!("resize {} {}", *r, *c) }
         _ => match rng.below(4) { 0 => { let n = rng.below(7); *r = n; *c = n; format!("eye {}", n) }
                                   1 => format!("clonemut {}", sc(rng)),
                                   2 => { *r = dim(rng); *c = dim(rng); format!("new {} {} {}", *r, *c, sc(rng)) }
@@ -383,6 +384,14 @@ pub fn gen(rng: &mut Rng, tier: Tier, out: &mut Vec<String>) {
     // (2) every shape for the unary / same-shape operations and transposes
     for r in 0..9 { for c in 0..9 {
         out.push(format!("mat_hist q {} 6 add {} trip sub {} tr neg smul {}", gen_mat_str::<Q>(rng, r, c, 15, 0), gen_mat_str::<Q>(rng, r, c, 15, 0), gen_mat_str::<Q>(rng, c, r, 15, 0), Q::gen(rng, 0, 0).wr()));
+    } }
+    // (2b) shrink then regrow along ONE dimension with the other unchanged (the storage could be reused: seeded change S10-C03),
+    //      rows and columns, every starting shape 1..6 x 1..6, exact and f64
+    for r in 1..7usize { for c in 1..7usize {
+        let (r1, c1) = (rng.below(r), rng.below(c)); let (r2, c2) = (r1 + 1 + rng.below(4), c1 + 1 + rng.below(4));
+        out.push(format!("mat_hist q {} 3 resize {} {} resize {} {} trip", gen_mat_str::<Q>(rng, r, c, 15, 0), r1, c, r2, c));
+        out.push(format!("mat_hist q {} 3 resize {} {} resize {} {} trip", gen_mat_str::<Q>(rng, r, c, 15, 0), r, c1, r, c2));
+        out.push(format!("mat_hist f {} 4 resize {} {} resize {} {} norms 2 resize {} {}", gen_mat_str::<f64>(rng, r, c, 15, 0), r1, c, r2, c, r2, c2));
     } }
     // (3) random histories
     let (nh, maxops) = if tier == Tier::Quick { (300, 40) } else { (5000, 40) };
